@@ -90,6 +90,18 @@ def run(chk):
     chk.floor(R2 + ":stores", nst, 8)
     # write_offset: store(dst, load(dst) | mask)
     nw = 0
+    # the masks: locals whose address is handed to encode_offset32/64 (whatever they are called)
+    mask_dids = set()
+    for i, x in wo.calls(lambda x: x.get("cn", "").startswith("encode_offset")):
+        for a in x.get("args", []):
+            ax = wo.e(a)
+            while ax and ax["k"] in ("cast", "paren"):
+                ax = wo.e(ax["sub"])
+            if ax and ax["k"] == "unop" and ax["op"] == "&":
+                r0 = wo.e(wo.strip(ax["sub"]))
+                if r0 and r0["k"] == "ref" and "did" in r0:
+                    mask_dids.add(r0["did"])
+    chk.need(len(mask_dids) >= 1, "write_offset: no local is passed to encode_offset32/64 by address")
     for i, x in wo.calls(lambda x: x.get("cn", "").startswith("store")):
         nw += 1
         a1 = wo.e(wo.strip(x["args"][1]))
@@ -97,7 +109,7 @@ def run(chk):
         if a1 and a1["k"] == "binop" and a1["op"] == "|":
             l, r = wo.e(wo.strip(a1["lhs"])), wo.e(wo.strip(a1["rhs"]))
             ok = bool(l and l["k"] in ("call", "mcall") and l.get("cn", "").startswith("load") and wo.text(l["args"][0]) == wo.text(x["args"][0]) and
-                      r and r["k"] == "ref" and r.get("name") == "mask")
+                      r and r["k"] == "ref" and r.get("did") in mask_dids)
         chk.ob(R2, "write_offset|%s" % x["cn"], ok, loc=wo.loc(i), detail="the patched word is not `load(dst) | mask` of the same location: %s" % wo.text(x["args"][1])[:80])
     chk.floor(R2 + ":write_offset-stores", nw, 4)
 
@@ -110,9 +122,28 @@ def run(chk):
         if n in ("kMaxValue",):
             continue
         chk.ob(R3, "encode_offset32|" + n, n in cases, loc=UNIT, detail="no case for OffsetType::%s" % n)
-    sww = [x for x in wo.ex.values() if x["k"] == "s:SwitchStmt"]
-    chk.need(len(sww) == 1, "write_offset: switch over value_size not found")
-    chk.ob(R3, "write_offset|sizes", sorted(c.get("v") for c in sww[0]["cases"]) == [1, 2, 4, 8], loc=UNIT, detail="write_offset handles sizes %s" % sorted(c.get("v") for c in sww[0]["cases"]))
+    # the value sizes write_offset distinguishes: switch cases over value_size() or equality tests against it (either shape)
+    vs_locals = set()
+    for x in wo.ex.values():
+        if x["k"] == "decl":
+            for v in x["vars"]:
+                if v.get("init") and "value_size()" in wo.text(v["init"]):
+                    vs_locals.add(v["did"])
+
+    def is_vs(e):
+        y = wo.e(wo.strip(e))
+        return y is not None and (("value_size()" in wo.text(e)) or (y["k"] == "ref" and y.get("did") in vs_locals))
+    sizes = set()
+    for x in wo.ex.values():
+        if x["k"] == "s:SwitchStmt" and is_vs(x["cond"]):
+            sizes |= {c.get("v") for c in x["cases"] if c.get("v") is not None}
+        elif x["k"] == "binop" and x["op"] in ("==", "!="):
+            for a, b in ((x["lhs"], x["rhs"]), (x["rhs"], x["lhs"])):
+                bx = wo.e(wo.strip(b))
+                if is_vs(a) and bx is not None and isinstance(bx.get("cv"), int):
+                    sizes.add(bx["cv"])
+    chk.need(len(sizes) >= 1, "write_offset: no dispatch over value_size() found (neither switch nor comparisons)")
+    chk.ob(R3, "write_offset|sizes", sorted(sizes) == [1, 2, 4, 8], loc=UNIT, detail="write_offset handles sizes %s" % sorted(sizes))
 
     # ---------------------------------------------------------------- C17.d ADR/ADRP positions vs database
     R4 = "R-DB-AGREE"
@@ -135,6 +166,14 @@ def run(chk):
 
     # ---------------------------------------------------------------- C17.e no silent truncation of the 64-bit displacement
     narrow.run(chk, [e32, e64, wo], floor=2)
+    # ---------------------------------------------------------------- C17.f discarded low bits are tested before they are shifted out
+    fall = chk.facts(UNIT, funcs=r"asmjit::CodeWriterUtils[A-Za-z_0-9:]*$")
+    helpers = {}
+    for fo in fall["functions"]:
+        g = cfg.Fn(fo)
+        helpers["%s/%d" % (g.name, len(g.params))] = g
+    fa64 = chk.facts("asmjit/arm/a64assembler.cpp", funcs=r"a64::Assembler::_emit$")
+    narrow.run_discard(chk, [e32, e64, cfg.find_fn(fa64, "a64::Assembler::_emit")], helpers)
 
     return chk.finish(
         level="other",
